@@ -47,6 +47,7 @@ type World struct {
 	AckBytes map[string][]byte // ack bytes written on dst for triple (from EventWriteAck)
 	Now      time.Time
 	Marker   common.Address
+	Fwd      map[string]common.Address // chain id -> the user's forwarding contract
 }
 
 type SnapT struct {
@@ -89,7 +90,7 @@ func NewWorldAccts(names []string, acctsOf func(string) []Acct) *World {
 	w := &World{Names: names, Chains: map[string]*Chain{}, ID: map[string]string{}, Abs: map[string]string{},
 		Origin: map[string]common.Address{}, Wrap: map[string]map[string]common.Address{}, AbsH: map[string][]int64{},
 		Snap: map[string][]SnapT{}, Sent: map[string][]byte{}, SentHash: map[string]string{}, AckBytes: map[string][]byte{},
-		Now: StartTime, Marker: common.HexToAddress("0x00000000000000000000000000000000000eeeee")}
+		Now: StartTime, Fwd: map[string]common.Address{}, Marker: common.HexToAddress("0x00000000000000000000000000000000000eeeee")}
 	for _, n := range names {
 		id := ChainIDs[n]
 		w.ID[n], w.Abs[id] = id, n
@@ -297,6 +298,7 @@ type SendSpec struct {
 	Call     string // none | ok | revert | hookfail
 	Fee      int64
 	Callback bool
+	Via      string // "" / "direct": the user calls the endpoint; "contract": through a forwarding contract
 }
 
 func (w *World) callData(src, dst string, call string) (string, []byte) {
@@ -354,9 +356,28 @@ func (w *World) Send(s SendSpec) TxResult {
 	payload := mustPack(endpointABI, "crossChainCall", data, fee)
 	before := len(w.Sent)
 	_ = before
-	r := c.DeliverEth(user, addrp(endpAddr), nil, payload)
+	to := endpAddr
+	if s.Via == "contract" {
+		to = w.forwarder(c)
+	}
+	r := c.DeliverEth(user, addrp(to), nil, payload)
 	w.harvest(s.Src, r)
 	return r
+}
+
+// forwarder: a contract of the user that relays its call data to the endpoint contract (deployed on first use)
+func (w *World) forwarder(c *Chain) common.Address {
+	if a, ok := w.Fwd[c.ChainID]; ok {
+		return a
+	}
+	user := c.Accts[AcctUser]
+	nonce := c.App.EvmKeeper.GetNonce(c.Ctx(), user.Eth)
+	addr := crypto.CreateAddress(user.Eth, nonce)
+	if r := c.DeliverEth(user, nil, nil, proxyCode("forward", endpAddr)); !r.OK() {
+		panic("deploy forwarder: " + r.Log + r.VMError)
+	}
+	w.Fwd[c.ChainID] = addr
+	return addr
 }
 
 func userOf(w *World, n string) Acct {
